@@ -121,11 +121,21 @@ void clear_shared_ro_all() {
 }
 void set_block_owner_task(void *, int) {
 }
+uint64_t digest_shared() {
+    return 0;
+}
+uint64_t steps_now() {
+    return 0;
+}
 size_t live_lib_blocks() {
     return g_lib_live > 0 ? (size_t)g_lib_live : 0;
 }
 uint32_t heap_serial() {
     return (uint32_t)g_allocs;
+}
+void check_leaks(const char *world) {
+    if (g_aborted || g_lib_live <= 0) return;
+    report("leak", world, std::to_string(g_lib_live) + " library block(s) still allocated after every object was destroyed");
 }
 
 LibCall::LibCall() {
@@ -138,6 +148,14 @@ LibCall::~LibCall() {
 
 static void trap_handler(int signo, siginfo_t *, void *) {
     char buf[256];
+    if (signo == SIGALRM) {
+        // this flavour has no step clock: a run that exceeds the wall-clock cap is abandoned, never reported
+        int     n = snprintf(buf, sizeof buf, "ABANDON run=%llu seed=%llu world=%s\n", (unsigned long long)g_run_index,
+                             (unsigned long long)g_run_seed, g_run_world[0] ? g_run_world : "-");
+        ssize_t r = write(g_result_fd, buf, (size_t)n);
+        (void)r;
+        _exit(71);
+    }
     int  n = snprintf(buf, sizeof buf, "TRAP run=%llu seed=%llu world=%s signo=%d kind=%s inlib=%d pcs=0\n",
                       (unsigned long long)g_run_index, (unsigned long long)g_run_seed, g_run_world[0] ? g_run_world : "-", signo,
                       signo == SIGFPE ? "fpe" : signo == SIGALRM ? "timeout" : signo == SIGSEGV ? "segv" : "other", g_in_lib ? 1 : 0);
@@ -242,6 +260,10 @@ void __asan_on_error() {
                       (unsigned long long)g_run_seed, g_run_world[0] ? g_run_world : "-");
     ssize_t r = write(2, buf, (size_t)n);
     (void)r;
+}
+// called by UBSan when it reports: same purpose
+void __ubsan_on_report() {
+    __asan_on_error();
 }
 const char *__asan_default_options() {
     return "exitcode=77:detect_leaks=0:handle_abort=0:handle_segv=0:handle_sigfpe=0:handle_sigbus=0:handle_sigill=0:"
